@@ -1045,6 +1045,7 @@ def _shared_body_rule(prog):
 
 
 SELFTESTS = [
+    (rule_success_only_at_end, ["c09_end_bad.c"], ["c09_end_good.c"], "success-return"),
     (rule_eof_before_use, ["c09_bad.c"], ["c09_good.c"], "ch"),
     (rule_short_fread, ["c09_bad.c"], ["c09_good.c"], "fread"),
     (rule_static_state, ["c09_bad.c"], ["c09_good.c"], "carry"),
